@@ -116,7 +116,8 @@ def _compute_strain_energy_multi_block(functionSpace, UField, stateField, dt, bl
         materialModel = blockModels[blockKey]
         elemIds = functionSpace.mesh.blocks[blockKey]
         
-        L = strain_energy_density_to_lagrangian_density(materialModel.compute_energy_density)
+        L = strain_energy_density_to_lagrangian_density(materialModel.compute_energy_density,
+                                                        materialModel.compute_initial_state().shape[0])
         
         blockEnergy = FunctionSpace.integrate_over_block(functionSpace, UField, stateField, dt, L,
                                                          elemIds, modify_element_gradient=modify_element_gradient)
@@ -148,7 +149,7 @@ def _compute_updated_internal_variables_multi_block(functionSpace, U, states, dt
     for blockKey in blockModels:
         elemIds = functionSpace.mesh.blocks[blockKey]
         blockDispGrads = dispGrads[elemIds]
-        blockStates = states[elemIds]
+        blockStates = states[elemIds][:, :, :blockModels[blockKey].compute_initial_state().shape[0]]
         
         compute_state_new = blockModels[blockKey].compute_state_new
         
@@ -194,7 +195,8 @@ def _compute_element_stiffnesses_multi_block(U, stateVariables, dt, functionSpac
     elementHessians = np.zeros((Mesh.num_elements(functionSpace.mesh), nen, 2, nen, 2))
     for blockKey in blockModels:
         materialModel = blockModels[blockKey]
-        L = strain_energy_density_to_lagrangian_density(materialModel.compute_energy_density)
+        L = strain_energy_density_to_lagrangian_density(materialModel.compute_energy_density,
+                                                        materialModel.compute_initial_state().shape[0])
         elemIds = functionSpace.mesh.blocks[blockKey]
         f =  vmap(compute_element_stiffness_from_global_fields,
                   (None, None, 0, None, 0, 0, 0, 0, None, None))
@@ -205,9 +207,9 @@ def _compute_element_stiffnesses_multi_block(U, stateVariables, dt, functionSpac
     return elementHessians
 
 
-def strain_energy_density_to_lagrangian_density(strain_energy_density):
+def strain_energy_density_to_lagrangian_density(strain_energy_density, numStateVariables=None):
     def L(U, gradU, Q, X, dt):
-        return strain_energy_density(gradU, Q, dt)
+        return strain_energy_density(gradU, Q[:numStateVariables], dt)
     return L
 
 
@@ -247,7 +249,8 @@ def create_multi_block_mechanics_functions(functionSpace, mode2D, materialModels
         stresses = np.zeros((Mesh.num_elements(fs.mesh), len(fs.quadratureRule), 3, 3))
         for blockKey in materialModels:
             compute_output_energy_density = materialModels[blockKey].compute_energy_density
-            output_lagrangian = strain_energy_density_to_lagrangian_density(compute_output_energy_density)
+            output_lagrangian = strain_energy_density_to_lagrangian_density(compute_output_energy_density,
+                                                                            materialModels[blockKey].compute_initial_state().shape[0])
             output_constitutive = value_and_grad(output_lagrangian, 1)
             elemIds = fs.mesh.blocks[blockKey]
             blockEnergyDensities, blockStresses = FunctionSpace.evaluate_on_block(fs, U, stateVariables, dt, output_constitutive, elemIds, modify_element_gradient=modify_element_gradient)
